@@ -2091,10 +2091,10 @@ func (r *Raft) nextConfiguration(next *Configuration) {
 		}
 	}
 
-	// Create entry for added nodes.
+	// Create entry for added nodes. Replication to a new node starts at the beginning of the log.
 	for id := range next.Members {
 		if _, ok := r.configuration.Members[id]; !ok {
-			r.followers[id] = new(follower)
+			r.followers[id] = &follower{nextIndex: 1}
 		}
 	}
 }
